@@ -77,20 +77,6 @@ impl<'x> LifetimeLowerer for &'x ast::LifetimeEnv {
     #[verifier::external_body] fn lower_lifetime(&mut self, lifetime: &ast::Lifetime) -> MaybeStatic<Lifetime> { unimplemented!() }
     #[verifier::external_body] fn lower_generics(&mut self, lifetimes: &[ast::Lifetime], type_generics: &ast::LifetimeEnv, is_self: bool) -> Lifetimes { unimplemented!() }
 }
-// FFI-safety of a written type (proved equal to this spec on the real TypeName::is_ffi_safe in unit ffi_safe)
-pub open spec fn is_ptr(t: ast::TypeName) -> bool { t is Reference || t is Box }
-pub open spec fn spec_ffi_safe(t: ast::TypeName) -> bool {
-    match t {
-        ast::TypeName::Option(inner, sd) => if is_ptr(*inner) { sd == StdlibOrDiplomat::Stdlib } else { sd == StdlibOrDiplomat::Diplomat },
-        ast::TypeName::StrReference(_, _, sd) => sd == StdlibOrDiplomat::Diplomat,
-        ast::TypeName::StrSlice(_, sd) => sd == StdlibOrDiplomat::Diplomat,
-        ast::TypeName::PrimitiveSlice(_, _, sd) => sd == StdlibOrDiplomat::Diplomat,
-        ast::TypeName::Unit | ast::TypeName::Write | ast::TypeName::Result(..) | ast::TypeName::Ordering => false,
-        _ => true,
-    }
-}
-#[verifier::external_body] pub fn __is_ffi_safe(t: &ast::TypeName) -> (r: bool) ensures r == spec_ffi_safe(*t) { unimplemented!() }
-
 // ---- oracle (struct level)
 pub open spec fn struct_fields_ok(l: &LookupId, st: &ast::Struct, in_path: ast::Path, env: Env) -> bool {
     forall|j: int| 0 <= j < st.fields@.len() ==> spec_ffi_safe((#[trigger] st.fields@[j]).1) && allowed_in(l, st.fields@[j].1, in_path, env, false)
